@@ -188,6 +188,33 @@ fn main() {
             out.push(serde_json::json!({"scenario": format!("capture_{}", name), "check": "capture_mode", "ok": ok, "detail": detail}));
         }
     }
+    // ---- {% set %} blocks where the surrounding output is thrown away (imported module, extending child):
+    //      the block's text is still captured
+    {
+        let mut env = Environment::new();
+        env.add_template("m", "{% set w %}MW{% endset %}{% macro a() %}A{% endmacro %}").unwrap();
+        env.add_template("base", "[{% block b %}B{% endblock %}]").unwrap();
+        env.add_template("child", "{% extends 'base' %}{% set t %}T{% endset %}{% block b %}{{ t }}{% endblock %}").unwrap();
+        let cases: Vec<(&str, &str, &str)> = vec![
+            ("from_import_set_block", "{% from 'm' import w %}[{{ w }}]", "[MW]"),
+            ("import_module_set_block", "{% import 'm' as mod %}[{{ mod.w }}]", "[MW]"),
+            ("set_block_at_top_level", "{% set w %}X{% endset %}[{{ w }}]", "[X]"),
+        ];
+        for (name, src, want) in cases {
+            let r = env.render_str(src, ());
+            let (ok, detail) = match r {
+                Ok(s) => (s == want, format!("{} renders {:?}, expected {:?}", src, s, want)),
+                Err(e) => (false, format!("render failed: {}", e)),
+            };
+            out.push(serde_json::json!({"scenario": format!("begin_capture_{}", name), "check": "begin_capture_mode", "ok": ok, "detail": detail}));
+        }
+        let r = env.get_template("child").unwrap().render(());
+        let (ok, detail) = match r {
+            Ok(s) => (s == "[T]", format!("a set block at the top level of an extending template, read in a block, renders {:?}, expected \"[T]\"", s)),
+            Err(e) => (false, format!("render failed: {}", e)),
+        };
+        out.push(serde_json::json!({"scenario": "begin_capture_set_block_in_extending_child", "check": "begin_capture_mode", "ok": ok, "detail": detail}));
+    }
     // ---- fuel: straight-line templates; the caller compares `consumed` with the number of charged instructions
     for (name, src) in [
         ("fuel_text_and_prints", "a{{ x }}b{{ y }}c"),
